@@ -1,6 +1,6 @@
 import Qryn.Proofs.ProfDiffE2E
 import Qryn.Proofs.ProfWrap64
-import Qryn.Proofs.PprofRefs
+import Qryn.Proofs.PprofStacks2
 import Qryn.Gen.ProfTreeShape
 import Qryn.Gen.ProfExtShape
 import Qryn.Prof.ExtPins
@@ -701,6 +701,65 @@ theorem merge_total_order_free (Ps Qs : List PProfile) (hp : Ps.Perm Qs) (st st'
     valTotal (result st).samples j = valTotal (result st').samples j := by
   rw [merge_conserves_values Ps st h, merge_conserves_values Qs st' h']
   exact sum_perm_int (hp.map _)
+
+
+open Qryn.Prof.Pprof in
+/-- **merge_sums_per_stack.** Read every sample's stack through the tables it refers to — each location as its address and
+    the functions of its lines, each function as (start line, name, system name, file name) STRINGS (`stStack` in the
+    merged tables, `inStack` in a payload's own). For every class `Q` of such resolved stacks and every value position:
+    the merged samples of the class carry the sum of the payloads' samples of the class. So `Merge` never moves weight
+    from one call stack to another, whatever the ids and the string tables of the payloads look like (shared, disjoint,
+    permuted, repeated strings). Hypothesis: fewer than 2^32 distinct functions (`hashLines` packs the function id into the
+    low 32 bits of the line key). -/
+theorem merge_sums_per_stack (Q : List RLoc → Bool) (Ps : List PProfile) (st : MState)
+    (h : mergeAll MState.empty Ps = .ok st) (hsmall : st.functions.length < 2 ^ 32) (j : Nat) :
+    stackTotal Q st j = inputStackTotal Q Ps j := by
+  have := mergeAll_stacks Q Ps MState.empty st valInv_empty refsOK_empty h hsmall j
+  rw [this]
+  simp [stackTotal, valTotalK, MState.empty]
+
+open Qryn.Prof.Pprof in
+/-- **merge_order_free_per_stack.** Hence the weight of every resolved stack (and of every class of stacks) is the
+    same for every order of the payloads — commutativity of the merge up to the numbering of the tables; together with
+    `merge_incremental_pprof` (merging `Ps ++ Qs` = merging `Qs` into the state of `Ps`) this is `merge_assoc_comm` for
+    the weights. -/
+theorem merge_order_free_per_stack (Q : List RLoc → Bool) (Ps Qs : List PProfile) (hp : Ps.Perm Qs) (st st' : MState)
+    (h : mergeAll MState.empty Ps = .ok st) (h' : mergeAll MState.empty Qs = .ok st')
+    (hs : st.functions.length < 2 ^ 32) (hs' : st'.functions.length < 2 ^ 32) (j : Nat) :
+    stackTotal Q st j = stackTotal Q st' j := by
+  rw [merge_sums_per_stack Q Ps st h hs, merge_sums_per_stack Q Qs st' h' hs']
+  exact sum_perm_int (hp.map _)
+
+namespace MergeWitness
+open Qryn.Prof.Pprof
+/-- two payloads with one stackless sample each, labelled `bytes = 100` resp. `bytes = 200` (numeric labels) -/
+def pA : PProfile := ⟨["", "s", "c", "bytes"], [⟨1, 2⟩], some ⟨1, 2⟩, [⟨[], [1], [⟨3, 0, 100, 0⟩]⟩], [], [], [], 0, 0, 0, 0, 0, [], 0⟩
+def pB : PProfile := ⟨["", "s", "c", "bytes"], [⟨1, 2⟩], some ⟨1, 2⟩, [⟨[], [2], [⟨3, 0, 200, 0⟩]⟩], [], [], [], 0, 0, 0, 0, 0, [], 0⟩
+/-- what a reader of the merged profile sees of the samples: values and the numbers of the labels -/
+def view (r : Except MergeErr MState) : List (List Int × List Int) :=
+  match r with
+  | .ok st => (result st).samples.map (fun (s : PSample) => (s.vals, s.labels.map (·.num)))
+  | .error _ => []
+end MergeWitness
+
+open Qryn.Prof.Pprof MergeWitness in
+/-- the full commutativity one might expect: the merged samples (values AND label numbers) do not depend on the order -/
+def merge_assoc_comm_full : Prop :=
+  ∀ Ps Qs : List PProfile, Ps.Perm Qs → (view (mergeAll MState.empty Ps)).Perm (view (mergeAll MState.empty Qs))
+
+open Qryn.Prof.Pprof MergeWitness in
+/-- … is FALSE: `GetSampleKey` hashes the label keys and string values only, so samples that differ in a NUMERIC label
+    (the allocation size classes of a heap profile) are merged into one and the number of the first payload is kept —
+    the values are conserved (`merge_conserves_values`, `merge_sums_per_stack`), the label is not order independent.
+    Recorded in the notes as observed (weights are what C16 is about). -/
+theorem merge_assoc_comm_counterexample : ¬ merge_assoc_comm_full := by
+  intro h
+  have := h [pA, pB] [pB, pA] (List.Perm.swap pB pA [])
+  have e1 : view (mergeAll MState.empty [pA, pB]) = [([3], [100])] := by decide +kernel
+  have e2 : view (mergeAll MState.empty [pB, pA]) = [([3], [200])] := by decide +kernel
+  rw [e1, e2] at this
+  have := this.subset (List.mem_singleton.mpr rfl)
+  simp at this
 
 /-! ## the hypotheses are satisfiable (and hold on a concrete case with the real `getNodeId`) -/
 
